@@ -389,6 +389,7 @@ func (c *ptCtx) wrapT(en ptEnv, bs []bind, body string) string {
 		return wrap(bs, body)
 	}
 	for i := len(bs) - 1; i >= 0; i-- {
+		c.t.use("a callee that can panic, in a function with a callback", "PathGo.bindT (the log as it stands is returned with the panic)")
 		body = "(PathGo.bindT " + en[ptLogKey].e + " " + bs[i].rhs + " fun " + bs[i].pat + " =>\n" + body + ")"
 	}
 	return body
@@ -1219,8 +1220,10 @@ func (c *ptCtx) assign(s *ast.AssignStmt, cur ptEnv, decl map[string]bool, next 
 			errT := next(e, d)
 			switch kind {
 			case "cb": // the invocation is on the log however the callback ends
+				c.t.use("x, err := cb(path, val)", "PathGo.callCb (the invocation is appended to the log however it ends)")
 				return c.wrapT(cur, bs, "(PathGo.callCb "+log2+" "+text+"\n  (fun "+pat+" =>\n"+indent(indent(okT))+")\n  (fun "+tag+" =>\n"+indent(indent(errT))+"))")
 			case "unit":
+				c.t.use("x…, err := f(…, cb)", "PathGo.callT (f takes the log so far and returns the log at its end)")
 				return c.wrapT(cur, bs, "(PathGo.callT "+text+"\n  (fun "+log2+" "+pat+" =>\n"+indent(indent(okT))+")\n  (fun "+log2+" "+tag+" =>\n"+indent(indent(errT))+"))")
 			}
 			return c.wrapT(cur, bs, "(PathGo.callE "+text+"\n  (fun "+pat+" =>\n"+indent(indent(okT))+")\n  (fun "+tag+" =>\n"+indent(indent(errT))+"))")
@@ -1382,6 +1385,9 @@ func (c *ptCtx) rangeStmt(s *ast.RangeStmt, cur ptEnv, after func(ptEnv) string)
 	}
 	lk.setup = func(body ptEnv, head string) ptEnv {
 		if lk.ranged != "" && keyName != "" {
+			if d := ptDeclaredIn(s.Body); d[lk.ranged] || d[keyName] { // xs[i] would no longer be the current element
+				dieAt(s, "the loop body redeclares %s or %s", lk.ranged, keyName)
+			}
 			c.curXs, c.curIx, c.curElem = lk.ranged, keyName, ptVal_{sh: ptStep, e: head}
 		}
 		return body.with(valName, ptVal_{sh: ptStep, e: head})
@@ -1992,6 +1998,7 @@ func (c *ptCtx) callRaw(call *ast.CallExpr, en ptEnv) (bs []bind, text string, r
 				}
 				if a.sh == ptPath && (b.sh == ptStruct || b.sh == ptStep) {
 					_, be := c.coerce(call.Args[1], b, ptStep)
+					c.t.use("append(path, step)", "path ++ [step]")
 					return append(bs, bs2...), "(" + a.e + " ++ [" + be + "])", []ptShape{ptPath}, false, false
 				}
 			}
@@ -2240,7 +2247,7 @@ func translatePathFns(repo, leanDir, hdr string) int {
 	}
 	var b strings.Builder
 	b.WriteString(hdr + "-- Translation of the path machinery of cty/path.go, cty/path_set.go and of Walk (cty/walk.go) (extract/translate_path.go);\n-- tied to the hand-written model CtyModel/Path.lean, PathSet.lean, Walk.lean by CtyModel/Lemmas/PathFnsTie.lean.\n--\n")
-	b.WriteString("-- TRANSLATED from the source text (a Go panic is `Res.panic`; a `(T…, error)` result is `Res (T…)`, a non-nil error\n-- `Res.err` of its class tag; `X : SetOracle` is what the model is told about set iteration, used by RawEquals only):\n")
+	b.WriteString("-- TRANSLATED from the source text (a Go panic is `Res.panic`; a `(T…, error)` result is `Res (T…)`, a non-nil error\n-- `Res.err` of its class tag; `X : SetOracle` is what the model is told about set iteration, used by RawEquals and ElementIterator):\n")
 	for _, u := range t.order {
 		fmt.Fprintf(&b, "--   %s  (%s)\n", u.key, u.lines)
 	}
